@@ -13,7 +13,9 @@
    * `"HH:MM:SS:FF"`: four two-digit fields separated by colons.
    * file types: --itype/--otype if given, else the file extension (what follows the last dot of the file
      name, a name that is not made of dots only), case-insensitively; TTML SCC STL SRT VTT can be read,
-     TTML SRT VTT can be written. *)
+     TTML SRT VTT can be written.
+   * the command line: see "the command line" below; `spec_plan` is the plan README prescribes for a command line and a
+     configuration all of whose values are documented; `lib_pipeline` is the composition of the library calls. *)
 From Coq Require Import String.
 From TT Require Import Base.Prelude Base.CliTypes.
 
@@ -106,8 +108,8 @@ Definition strip_both (pre : text) (post : Z) (s : text) : option text :=
 Definition color_form (comp : text -> bool) (s : text) : bool :=
   one_of s ttml_named_colors ||
   match s with
-  | 35 :: h => forallb hexdigit h && ((Z.of_nat (length h) =? 6) || (Z.of_nat (length h) =? 8))
-  | _ => false
+  | c0 :: h => (c0 =? 35) && forallb hexdigit h && ((Z.of_nat (length h) =? 6) || (Z.of_nat (length h) =? 8))
+  | [] => false
   end ||
   match strip_both (T "rgb(") 41 s with
   | Some body => match fields 44 body with [r; g; b] => forallb comp [r; g; b] | _ => false end
@@ -164,7 +166,10 @@ Definition bool_key (k : key) : bool :=
   | KPreserveTextAlign => true
   | _ => false
   end.
-(* README, per key; v is not null *)
+Definition color_key (k : key) : bool := match k with KColor | KBgColor => true | _ => false end.
+Definition is_null_value (v : json) : bool := match v with JNull => true | _ => false end.
+(* README, per key.  A null is documented for the two colours only ("<TTML color> | null"); for every other key README
+   is silent about null and the table below says nothing about it (in_table). *)
 Definition documented (k : key) (v : json) : bool :=
   match k, v with
   | (KProgressBar | KFillLineGap | KLinePadding | KTextFormatting | KLinePosition | KVttTextAlign | KCueId
@@ -180,59 +185,195 @@ Definition documented (k : key) (v : json) : bool :=
   | KMaxRowCount, JInt _ => true
   | KSafeArea, JInt z => (0 <=? z) && (z <=? 30)
   | (KColor | KBgColor), JStr s => color_ok s
+  | (KColor | KBgColor), JNull => true
   | _, _ => false
+  end.
+Definition in_table (k : key) (v : json) : bool := negb (is_null_value v) || color_key k.
+
+(* ------------------------------------------------------------------ what a documented value means (README) *)
+Definition number (s : text) : Z := fold_left (fun a c => 10 * a + (c - 48)) s 0.
+Definition hexv (c : Z) : Z := if digit c then c - 48 else if (65 <=? c) && (c <=? 70) then c - 55 else c - 87.
+Definition mean_bool (v : json) : bool := match v with JBool b => b | _ => false end.
+(* Python logging levels behind the three documented names *)
+Definition mean_level (v : json) : option Z :=
+  match v with
+  | JStr s => if text_eqb s (T "INFO") then Some 20 else if text_eqb s (T "WARN") then Some 30
+              else if text_eqb s (T "ERROR") then Some 40 else None
+  | _ => None
+  end.
+Definition mean_text (v : json) : option text := match v with JStr s => Some s | _ => None end.
+Definition mean_tfmt (v : json) : option tfmt :=
+  match v with
+  | JStr s => if text_eqb s (T "frames") then Some TfFrames else if text_eqb s (T "clock_time") then Some TfClockTime
+              else if text_eqb s (T "clock_time_with_frames") then Some TfClockTimeWithFrames else None
+  | _ => None
+  end.
+(* the rational <num>/<denom> in lowest terms *)
+Definition mean_fps (v : json) : option (Z * Z) :=
+  match v with
+  | JStr s => match fields 47 s with
+              | [a; b] => let n := number a in let d := number b in let g := Z.gcd n d in Some (n / g, d / g)
+              | _ => None
+              end
+  | _ => None
+  end.
+Definition mean_align (v : json) : scc_align :=
+  match v with
+  | JStr s => if text_eqb s (T "left") then AlLeft else if text_eqb s (T "center") then AlCenter
+              else if text_eqb s (T "right") then AlRight else AlAuto
+  | _ => AlAuto
+  end.
+Definition mean_mrc (v : json) : option mrc :=
+  match v with JStr _ => Some MrcMNR | JInt z => Some (MrcInt z) | _ => None end.
+Definition mean_int (v : json) : Z := match v with JInt z => z | _ => 0 end.
+(* TTML2 named colours as RGBA *)
+Definition ttml_named_rgba : list (string * rgba) :=
+  [("transparent", (0, 0, 0, 0)); ("black", (0, 0, 0, 255)); ("silver", (192, 192, 192, 255)); ("gray", (128, 128, 128, 255));
+   ("white", (255, 255, 255, 255)); ("maroon", (128, 0, 0, 255)); ("red", (255, 0, 0, 255)); ("purple", (128, 0, 128, 255));
+   ("fuchsia", (255, 0, 255, 255)); ("magenta", (255, 0, 255, 255)); ("green", (0, 128, 0, 255)); ("lime", (0, 255, 0, 255));
+   ("olive", (128, 128, 0, 255)); ("yellow", (255, 255, 0, 255)); ("navy", (0, 0, 128, 255)); ("blue", (0, 0, 255, 255));
+   ("teal", (0, 128, 128, 255)); ("aqua", (0, 255, 255, 255)); ("cyan", (0, 255, 255, 255))]%string.
+Definition hexpair (a b : Z) : Z := 16 * hexv a + hexv b.
+Definition mean_color_text (s : text) : option rgba :=
+  match find (fun nc => text_eqb s (T (fst nc))) ttml_named_rgba with
+  | Some nc => Some (snd nc)
+  | None =>
+    match (match s with
+           | c0 :: h => if c0 =? 35 then
+                          match h with
+                          | [r1; r2; g1; g2; b1; b2] => Some (hexpair r1 r2, hexpair g1 g2, hexpair b1 b2, 255)
+                          | [r1; r2; g1; g2; b1; b2; a1; a2] => Some (hexpair r1 r2, hexpair g1 g2, hexpair b1 b2, hexpair a1 a2)
+                          | _ => None
+                          end
+                        else None
+           | [] => None
+           end) with
+    | Some c => Some c
+    | None =>
+      match strip_both (T "rgb(") 41 s with
+      | Some body => match fields 44 body with [r; g; b] => Some (number r, number g, number b, 255) | _ => None end
+      | None =>
+        match strip_both (T "rgba(") 41 s with
+        | Some body => match fields 44 body with [r; g; b; a] => Some (number r, number g, number b, number a) | _ => None end
+        | None => None
+        end
+      end
+    end
+  end.
+Definition mean_color (v : json) : option rgba := match v with JStr s => mean_color_text s | _ => None end.
+Definition ocval {A} (f : A -> cval) (o : option A) : cval := match o with Some a => f a | None => CNone end.
+(* one key: the value the conversion must use for a documented v *)
+Definition meaning (k : key) (v : json) : cval :=
+  match k with
+  | KProgressBar | KFillLineGap | KLinePadding | KTextFormatting | KLinePosition | KVttTextAlign | KCueId | KPreserveTextAlign =>
+      CBool (mean_bool v)
+  | KLogLevel => ocval CInt (mean_level v)
+  | KDocumentLang | KStartTc | KFontStack => ocval CText (mean_text v)
+  | KTimeFormat => ocval CTfmt (mean_tfmt v)
+  | KFps => ocval (fun f => CFrac (fst f) (snd f)) (mean_fps v)
+  | KSccTextAlign => CAlign (mean_align v)
+  | KMaxRowCount => ocval CMrc (mean_mrc v)
+  | KSafeArea => CInt (mean_int v)
+  | KColor | KBgColor => ocval (fun c => match c with (r, g, b, a) => CColor r g b a end) (mean_color v)
   end.
 
 (* ------------------------------------------------------------------ recorded findings: executable triggers
    (findings_proposed/C19.txt).  Each describes, per key, the syntactic class of values on which the code is
-   known to depart from the table above; outside them the table must hold exactly. *)
-(* 1. bool-decoders-accept-anything: keys decoded by `bool` (and progress_bar, not decoded at all) take any
-      JSON value by truthiness *)
-Definition trigger_bool (k : key) (v : json) : bool := bool_key k && negb (is_bool v).
-(* 2. undocumented-values-accepted *)
-(* some prefix of s (s included) has the shape of a colour, components of any size *)
-Definition has_color_shaped_prefix (s : text) : bool :=
-  existsb (fun n => color_form all_digits (firstn n s)) (seq 0 (S (length s))).
-(* characters of the documented colour forms: hexadecimal digits after '#'; lower-case letters, digits, ( ) , otherwise *)
-Definition plain_color_text (s : text) : bool :=
-  match s with
-  | 35 :: h => forallb hexdigit h
-  | _ => forallb (fun c => lower_letter c || digit c || (c =? 40) || (c =? 41) || (c =? 44)) s
-  end.
+   known to depart from the table above; outside them the table must hold exactly.
+   Repaired and gone: bool keys (any JSON value by truthiness), lcd.safe_area through int(), imsc_writer.fps with signs /
+   spaces / underscores / zero, colours with trailing text, components above 255 or non-ASCII digits,
+   program_start_tc with trailing text, max_row_count true/false, one-character font families. *)
+(* 2. undocumented-values-accepted (what is left of it) *)
+Definition upper_letter (c : Z) : bool := (65 <=? c) && (c <=? 90).
+Definition ascii_space (c : Z) : bool := ((9 <=? c) && (c <=? 13)) || (c =? 32).
 Definition trigger_lenient (k : key) (v : json) : bool :=
   match k, v with
+  (* any logging level name or integer *)
   | KLogLevel, (JInt _ | JBool _) => true
   | KLogLevel, JStr s => one_of s ["CRITICAL"; "FATAL"; "WARNING"; "DEBUG"; "NOTSET"]%string
+  (* any string *)
   | KDocumentLang, JStr s => negb (langtag_ok s)
-  | KFps, JStr s => negb (forallb (fun c => digit c || (c =? 47)) s) ||
-                    match fields 47 s with [a; b] => all_digits a && all_digits b && negb (positive_number a) | _ => false end
+  (* case-insensitive *)
   | KSccTextAlign, JStr s => negb (forallb lower_letter s)
+  (* "tcp" in any case; drop-frame separators (any character but a line feed, because of an unescaped dot) *)
   | KStartTc, JStr s => negb (text_eqb s (T "TCP")) &&
                         (ci_eq s (T "TCP") ||
                          match s with
                          | [_; _; x; _; _; y; _; _; z; _; _] => negb ((x =? 58) && (y =? 58) && (z =? 58))
-                         | _ => Z.of_nat (length s) >? 11
+                         | _ => false
                          end)
-  | KMaxRowCount, JBool _ => true
+  (* "mnr" in any case *)
   | KMaxRowCount, JStr s => negb (text_eqb s (T "MNR")) && ci_eq s (T "MNR")
-  | KSafeArea, (JBool _ | JFloat _ _ | JStr _) => true
-  | (KColor | KBgColor), JStr s =>
-      negb (plain_color_text s) || (negb (color_ok s) && has_color_shaped_prefix s)
+  (* named colours in any letter case (and characters whose lower case is ASCII); white space around rgb()/rgba()
+     components — both pinned by test_imsc_color_parser.  Hexadecimal notations (any case of the digits) are exact. *)
+  | (KColor | KBgColor), JStr s => match s with
+                                   | c0 :: _ => if c0 =? 35 then false       (* #rrggbb[aa]: nothing is left *)
+                                                else existsb (fun c => upper_letter c || ascii_space c || (128 <=? c)) s
+                                   | [] => false
+                                   end
+  (* no validation beyond "some family-like token occurs" *)
   | KFontStack, JStr s => negb (fonts_ok s)
   | _, _ => false
   end.
-(* 3. documented-values-rejected: a font family of one unquoted character (the unquoted-name pattern needs two),
-      and digit strings longer than CPython's int() limit *)
-Definition has_short_family (s : text) : bool :=
-  existsb (fun it => match List.filter (fun c => negb (c =? 32)) it with [c] => negb ((c =? 39) || (c =? 34)) | _ => false end)
-          (fields 44 s).
+(* 3. documented-values-rejected (what is left of it): digit strings longer than CPython's int() limit *)
 Definition trigger_rejected (k : key) (v : json) : bool :=
   match k, v with
-  | KFontStack, JStr s => has_short_family s
   | (KFps | KColor | KBgColor), JStr s => Z.of_nat (length s) >? 4300
   | _, _ => false
   end.
-Definition trigger (k : key) (v : json) : bool := trigger_bool k v || trigger_lenient k v || trigger_rejected k v.
+Definition trigger (k : key) (v : json) : bool := trigger_lenient k v || trigger_rejected k v.
+
+(* ------------------------------------------------------------------ the command line (README "Command line":
+   tt convert [-h] -i INPUT -o OUTPUT [--itype ITYPE] [--otype OTYPE] [--config CONFIG] [--config_file CONFIG_FILE],
+   --filter by name; the long forms of -i / -o; options in any order, written `flag value` or `flag=value`;
+   a repeated option: the last value counts, filters accumulate in order) *)
+Definition spec_flags : list (string * dest) :=
+  [("-i", DInput); ("--input", DInput); ("-o", DOutput); ("--output", DOutput); ("--itype", DItype); ("--otype", DOtype);
+   ("--filter", DFilter); ("--config", DConfig); ("--config_file", DConfigFile)]%string.
+Definition flag_dest (t : text) : option dest :=
+  match find (fun fd => text_eqb t (T (fst fd))) spec_flags with Some fd => Some (snd fd) | None => None end.
+Definition dash_first (t : text) : bool := match t with c :: _ => c =? 45 | [] => false end.
+(* the grammar, generatively: a list of (option, value) items and the token lists that spell it *)
+Inductive tokens_of : list (dest * text) -> list text -> Prop :=
+| TNil : tokens_of [] []
+| TPair : forall f d v items toks, flag_dest f = Some d -> dash_first v = false -> tokens_of items toks ->
+                                   tokens_of ((d, v) :: items) (f :: v :: toks)
+| TEq : forall f d v items toks, flag_dest f = Some d -> tokens_of items toks ->
+                                 tokens_of ((d, v) :: items) ((f ++ 61 :: v) :: toks).
+(* ... and as a recogniser *)
+Fixpoint cut_eq (t : text) : option (text * text) :=
+  match t with
+  | [] => None
+  | c :: r => if c =? 61 then Some ([], r) else match cut_eq r with Some (a, b) => Some (c :: a, b) | None => None end
+  end.
+Fixpoint spec_items (toks : list text) : option (list (dest * text)) :=
+  match toks with
+  | [] => Some []
+  | t :: r =>
+      match flag_dest t with
+      | Some d => match r with
+                  | v :: r' => if dash_first v then None else option_map (cons (d, v)) (spec_items r')
+                  | [] => None
+                  end
+      | None => match cut_eq t with
+                | Some (f, v) => match flag_dest f with Some d => option_map (cons (d, v)) (spec_items r) | None => None end
+                | None => None
+                end
+      end
+  end.
+Definition dest_code (d : dest) : Z :=
+  match d with DHelp => 0 | DInput => 1 | DOutput => 2 | DItype => 3 | DOtype => 4 | DFilter => 5 | DConfig => 6 | DConfigFile => 7 end.
+Definition last_of (d : dest) (items : list (dest * text)) : option text :=
+  fold_left (fun acc it => if dest_code (fst it) =? dest_code d then Some (snd it) else acc) items None.
+Definition all_of (d : dest) (items : list (dest * text)) : list text :=
+  List.map snd (List.filter (fun it => dest_code (fst it) =? dest_code d) items).
+(* the options a well-formed `convert` command line denotes; None: -i or -o is missing *)
+Definition spec_options (items : list (dest * text)) : option (options * option text * option text) :=
+  match last_of DInput items, last_of DOutput items with
+  | Some i, Some o => Some (Build_options i o (last_of DItype items) (last_of DOtype items) (all_of DFilter items),
+                            last_of DConfig items, last_of DConfigFile items)
+  | _, _ => None
+  end.
 
 (* ------------------------------------------------------------------ a whole command line, judged on what the
    code was observed to do (used by the generated case files; the theorems of Properties/C19.v are about M) *)
@@ -267,15 +408,17 @@ Definition keys_of (sec : string) : list (string * key) :=
                                       ("color", KColor); ("bg_color", KBgColor)]
    else [])%string.
 (* per section in use: 0 every given value is documented; 1 some value is undocumented but inside a recorded
-   trigger; 2 some value is undocumented outside every trigger, or the section is not a JSON object *)
+   trigger; 2 some value is undocumented outside every trigger, or the section is not a JSON object.
+   A null outside the colours is not judged here (section_has_null). *)
 Definition section_status (sec : string) (cfg : option json) : Z :=
   match section sec cfg with
   | None => 0
   | Some (JObj _ as o) =>
       fold_left Z.max
         (List.map (fun nk => match jget (fst nk) o with
-                             | None | Some JNull => 0
-                             | Some v => if documented (snd nk) v then 0 else if trigger (snd nk) v then 1 else 2
+                             | None => 0
+                             | Some v => if negb (in_table (snd nk) v) then 0
+                                         else if documented (snd nk) v then 0 else if trigger (snd nk) v then 1 else 2
                              end) (keys_of sec)) 0
   | Some _ => 2
   end.
@@ -284,16 +427,26 @@ Definition section_has_rejected (sec : string) (cfg : option json) : bool :=
   match section sec cfg with
   | Some (JObj _ as o) =>
       existsb (fun nk => match jget (fst nk) o with
-                         | None | Some JNull => false
-                         | Some v => documented (snd nk) v && trigger_rejected (snd nk) v
+                         | None => false
+                         | Some v => in_table (snd nk) v && documented (snd nk) v && trigger_rejected (snd nk) v
                          end) (keys_of sec)
   | _ => false
   end.
-(* an explicit null: README says nothing about it (outside the colours), so S constrains neither outcome *)
+(* an explicit null outside the colours: README says nothing about it, so S constrains neither outcome *)
 Definition section_has_null (sec : string) (cfg : option json) : bool :=
   match section sec cfg with
-  | Some (JObj _ as o) => existsb (fun nk => match jget (fst nk) o with Some JNull => true | _ => false end) (keys_of sec)
+  | Some (JObj _ as o) => existsb (fun nk => match jget (fst nk) o with Some v => negb (in_table (snd nk) v) | None => false end) (keys_of sec)
   | _ => false
+  end.
+(* every given value of the section is inside the table and outside every trigger *)
+Definition section_clean (sec : string) (cfg : option json) : bool :=
+  match section sec cfg with
+  | Some (JObj _ as o) =>
+      forallb (fun nk => match jget (fst nk) o with
+                         | None => true
+                         | Some v => in_table (snd nk) v && negb (trigger (snd nk) v)
+                         end) (keys_of sec)
+  | _ => true
   end.
 Definition spec_known_filter (n : text) : bool := text_eqb n (T "lcd").
 Definition sections_in_use (rt wt : ftype) (filters : list text) : list string :=
@@ -306,7 +459,172 @@ Definition reader_type (r : reader) : ftype :=
 Definition writer_type (w : writer) : ftype := match w with WrTtml _ => TTML | WrSrt _ => SRT | WrVtt _ => VTT end.
 Definition find_type (g : option text) (p : text) : option ftype := find (type_ok g p) all_types.
 
-(* documented values whose meaning README fixes: the plan must carry them (precedence and "honours options") *)
+(* ------------------------------------------------------------------ the plan README prescribes.
+   A section that is absent (or null) gives the module no configuration object (its defaults apply); a section object
+   gives one, each key carrying the meaning of its documented value or, when the key is missing, its README default
+   (keys whose README default is a behaviour of the module — time_format, fps, program_start_tc, font_stack,
+   max_row_count, document_lang, the colours — are "not specified").  Any undocumented value, a section that is not an
+   object, an unresolvable or unwritable type: no plan (an error). *)
+Inductive sec_state := SAbsent | SBad | SObj (o : json).
+Definition ssection (name : string) (cfg : option json) : sec_state :=
+  match cfg with
+  | None | Some JNull => SAbsent
+  | Some (JObj _ as j) => match jget name j with
+                          | None | Some JNull => SAbsent
+                          | Some (JObj _ as o) => SObj o
+                          | Some _ => SBad
+                          end
+  | Some _ => SBad
+  end.
+Definition sval {A} (o : json) (name : string) (k : key) (mean : json -> A) (dflt : A) : option A :=
+  match jget name o with
+  | None => Some dflt
+  | Some v => if documented k v then Some (mean v) else None
+  end.
+Definition spec_general (o : json) : option (option Z * bool * option text) :=
+  match sval o "log_level" KLogLevel mean_level (Some 20), sval o "progress_bar" KProgressBar mean_bool true,
+        sval o "document_lang" KDocumentLang mean_text None with
+  | Some a, Some b, Some c => Some (a, b, c)
+  | _, _, _ => None
+  end.
+Definition spec_imsc (o : json) : option imsc_cfg :=
+  match sval o "time_format" KTimeFormat mean_tfmt None, sval o "fps" KFps mean_fps None with
+  | Some a, Some b => Some (Build_imsc_cfg a b)
+  | _, _ => None
+  end.
+Definition spec_scc (o : json) : option scc_align := sval o "text_align" KSccTextAlign mean_align AlAuto.
+Definition spec_stl (o : json) : option stl_cfg :=
+  match sval o "disable_fill_line_gap" KFillLineGap mean_bool false, sval o "program_start_tc" KStartTc mean_text None,
+        sval o "disable_line_padding" KLinePadding mean_bool false, sval o "font_stack" KFontStack mean_text None,
+        sval o "max_row_count" KMaxRowCount mean_mrc None with
+  | Some a, Some b, Some c, Some e, Some f => Some (Build_stl_cfg a b c e f)
+  | _, _, _, _, _ => None
+  end.
+Definition spec_srt (o : json) : option bool := sval o "text_formatting" KTextFormatting mean_bool true.
+Definition spec_vtt (o : json) : option vtt_cfg :=
+  match sval o "line_position" KLinePosition mean_bool false, sval o "text_align" KVttTextAlign mean_bool false,
+        sval o "cue_id" KCueId mean_bool true with
+  | Some a, Some b, Some c => Some (Build_vtt_cfg a b c)
+  | _, _, _ => None
+  end.
+Definition spec_lcd (o : json) : option lcd_cfg :=
+  match sval o "safe_area" KSafeArea mean_int 10, sval o "preserve_text_align" KPreserveTextAlign mean_bool false,
+        sval o "color" KColor mean_color None, sval o "bg_color" KBgColor mean_color None with
+  | Some a, Some b, Some c, Some e => Some (Build_lcd_cfg a b c e)
+  | _, _, _, _ => None
+  end.
+(* an optional module configuration: Some None = the module gets no configuration object *)
+Definition smodule {A} (name : string) (spec : json -> option A) (cfg : option json) : option (option A) :=
+  match ssection name cfg with
+  | SAbsent => Some None
+  | SBad => None
+  | SObj o => match spec o with Some c => Some (Some c) | None => None end
+  end.
+Definition spec_plan (o : options) (cfg : option json) : option plan_t :=
+  match cfg with
+  | None | Some JNull | Some (JObj _) =>
+    match smodule "general" spec_general cfg, find_type (o_itype o) (o_input o), find_type (o_otype o) (o_output o) with
+    | Some g, Some rt, Some wt =>
+        let rd := match rt with
+                  | TTML => Some RdTtml | SRT => Some RdSrt | VTT => Some RdVtt
+                  | SCC => option_map RdScc (smodule "scc_reader" spec_scc cfg)
+                  | STL => option_map RdStl (smodule "stl_reader" spec_stl cfg)
+                  end in
+        let fs := if existsb spec_known_filter (o_filters o)
+                  then match smodule "lcd" spec_lcd cfg with
+                       | Some c => let c := match c with Some c => c | None => Build_lcd_cfg 10 false None None end in
+                                   Some (List.map (fun _ => FLcd c) (List.filter spec_known_filter (o_filters o)))
+                       | None => None
+                       end
+                  else Some [] in
+        let wr := match wt with
+                  | TTML => option_map WrTtml (smodule "imsc_writer" spec_imsc cfg)
+                  | SRT => option_map WrSrt (smodule "srt_writer" spec_srt cfg)
+                  | VTT => option_map WrVtt (smodule "vtt_writer" spec_vtt cfg)
+                  | SCC | STL => None
+                  end in
+        match rd, fs, wr with
+        | Some rd, Some fs, Some wr =>
+            Some (Build_plan_t rd (match g with Some (_, _, l) => l | None => None end) fs wr
+                               (match g with Some (l, _, _) => l | None => None end)
+                               (match g with Some (_, b, _) => Some b | None => None end))
+        | _, _, _ => None
+        end
+    | _, _, _ => None
+    end
+  | Some _ => None
+  end.
+(* the sections a command line consults *)
+Definition sections_consulted (o : options) : list string :=
+  match find_type (o_itype o) (o_input o), find_type (o_otype o) (o_output o) with
+  | Some r, Some w => sections_in_use r w (o_filters o)
+  | _, _ => ["general"%string]
+  end.
+Definition clean (o : options) (cfg : option json) : bool := forallb (fun s => section_clean s cfg) (sections_consulted o).
+
+(* ------------------------------------------------------------------ the library pipeline: the selected reader, the
+   document language override, the named document filters in order, the selected writer *)
+Section Pipeline.
+  Variables doc bytes : Type.
+  Variable read_doc : reader -> text -> res doc.
+  Variable set_lang : text -> doc -> doc.
+  Variable run_filter : filter_app -> doc -> res doc.
+  Variable write_doc : writer -> doc -> res bytes.
+  Fixpoint filters_pipeline (fs : list filter_app) (d : doc) : res doc :=
+    match fs with [] => Ok d | f :: r => match run_filter f d with Ok d' => filters_pipeline r d' | Raise e => Raise e end end.
+  Definition lib_pipeline (p : plan_t) (input : text) : res bytes :=
+    match read_doc (p_reader p) input with
+    | Raise e => Raise e
+    | Ok d => let d := match p_lang p with Some l => set_lang l d | None => d end in
+              match filters_pipeline (p_filters p) d with
+              | Raise e => Raise e
+              | Ok d => write_doc (p_writer p) d
+              end
+    end.
+  (* the effects of a run that follows plan p to the end, in order *)
+  Definition plan_events (p : plan_t) (input output : text) : list event :=
+    (match p_progress p with Some b => [EvProgress b] | None => [] end) ++
+    (match p_level p with Some z => [EvLevel z] | None => [] end) ++
+    [EvRead (p_reader p) input] ++
+    (match p_lang p with Some l => [EvLang l] | None => [] end) ++
+    List.map EvFilter (p_filters p) ++ [EvWrite (p_writer p); EvOutput output].
+End Pipeline.
+
+(* ------------------------------------------------------------------ a whole run, judged on what the code was
+   observed to do (used by the generated case files; the theorems of Properties/C19.v are about M) *)
+(* the shape of the log: [progress] [level] read [lang] filter* write output — an error run stops somewhere before
+   `output`; the document language is set at most once, after reading and before the first filter *)
+Fixpoint shape_from (st : Z) (ev : list event) : Z :=
+  match ev with
+  | [] => st
+  | e :: r =>
+      let next := match e with
+                  | EvProgress _ => if st <? 1 then 1 else -1
+                  | EvLevel _ => if st <? 2 then 2 else -1
+                  | EvRead _ _ => if st <? 3 then 3 else -1
+                  | EvLang _ => if st =? 3 then 4 else -1
+                  | EvFilter _ => if (3 <=? st) && (st <=? 5) then 5 else -1
+                  | EvWrite _ => if (3 <=? st) && (st <=? 5) then 6 else -1
+                  | EvOutput _ => if st =? 6 then 7 else -1
+                  end in
+      if next <? 0 then -1 else shape_from next r
+  end.
+Definition no_output_event (ev : list event) : bool := forallb (fun e => match e with EvOutput _ => false | _ => true end) ev.
+(* the plan a complete log shows *)
+Definition plan_of_events (ev : list event) : option plan_t :=
+  let rd := fold_left (fun acc e => match e with EvRead r _ => Some r | _ => acc end) ev None in
+  let wr := fold_left (fun acc e => match e with EvWrite w => Some w | _ => acc end) ev None in
+  match rd, wr with
+  | Some rd, Some wr =>
+      Some (Build_plan_t rd (fold_left (fun acc e => match e with EvLang l => Some l | _ => acc end) ev None)
+              (flat_map (fun e => match e with EvFilter f => [f] | _ => [] end) ev) wr
+              (fold_left (fun acc e => match e with EvLevel z => Some z | _ => acc end) ev None)
+              (fold_left (fun acc e => match e with EvProgress b => Some b | _ => acc end) ev None))
+  | _, _ => None
+  end.
+
+(* documented values whose meaning README fixes: the plan must carry them (used where a recorded trigger keeps
+   spec_plan from being applicable) *)
 Definition want_bool (sec k : string) (cfg : option json) (dflt : bool) (got : bool) : bool :=
   match section sec cfg with
   | Some o => match jget k o with
@@ -323,33 +641,9 @@ Definition honours (cfg : option json) (p : plan_t) : bool :=
                 want_bool "vtt_writer" "line_position" cfg false (vt_line_position c) &&
                 want_bool "vtt_writer" "text_align" cfg false (vt_text_align c) &&
                 want_bool "vtt_writer" "cue_id" cfg true (vt_cue_id c)
-   | WrTtml c => match section "imsc_writer" cfg with
-                 | Some o => match jget "time_format" o, c with
-                             | Some (JStr s), Some c =>
-                                 if text_eqb s (T "frames") then match im_time_format c with Some TfFrames => true | _ => false end
-                                 else if text_eqb s (T "clock_time") then match im_time_format c with Some TfClockTime => true | _ => false end
-                                 else if text_eqb s (T "clock_time_with_frames") then match im_time_format c with Some TfClockTimeWithFrames => true | _ => false end
-                                 else true
-                             | Some (JStr _), None => false
-                             | _, _ => true
-                             end
-                 | None => true
-                 end
+   | WrTtml _ => true
    end) &&
   (match p_reader p with
-   | RdScc c => match section "scc_reader" cfg with
-                | Some o => match jget "text_align" o with
-                            | Some (JStr s) =>
-                                let got := match c with Some a => a | None => AlAuto end in
-                                if text_eqb s (T "left") then match got with AlLeft => true | _ => false end
-                                else if text_eqb s (T "center") then match got with AlCenter => true | _ => false end
-                                else if text_eqb s (T "right") then match got with AlRight => true | _ => false end
-                                else if text_eqb s (T "auto") then match got with AlAuto => true | _ => false end
-                                else true
-                            | _ => true
-                            end
-                | None => true
-                end
    | RdStl c => let c := match c with Some c => c | None => Build_stl_cfg false None false None None end in
                 want_bool "stl_reader" "disable_fill_line_gap" cfg false (st_fill_gap c) &&
                 want_bool "stl_reader" "disable_line_padding" cfg false (st_line_padding c)
@@ -375,65 +669,100 @@ Definition honours (cfg : option json) (p : plan_t) : bool :=
    | None => match p_lang p with None => true | Some _ => false end
    end).
 
-(* which recorded findings a section's values touch: bit 1 bool, bit 2 lenient, bit 4 rejected *)
+(* which recorded findings a section's values touch: bit 2 lenient, bit 4 rejected *)
 Definition section_mask (sec : string) (cfg : option json) : Z :=
   match section sec cfg with
   | Some (JObj _ as o) =>
       fold_left Z.lor
         (List.map (fun nk => match jget (fst nk) o with
-                             | None | Some JNull => 0
+                             | None => 0
                              | Some v => let k := snd nk in
-                                         if documented k v then (if trigger_rejected k v then 4 else 0)
-                                         else if trigger_bool k v then 1 else if trigger_lenient k v then 2 else 0
+                                         if negb (in_table k v) then 0
+                                         else if documented k v then (if trigger_rejected k v then 4 else 0)
+                                         else if trigger_lenient k v then 2 else 0
                              end) (keys_of sec)) 0
   | _ => 0
   end.
-Definition case_mask (a : argv) (i : inline_src) (f : file_src) : Z :=
-  match a with
-  | Subcommand _ o =>
-      match find_type (o_itype o) (o_input o), find_type (o_otype o) (o_output o) with
-      | Some r, Some w => fold_left Z.lor (List.map (fun s => section_mask s (effective i f)) (sections_in_use r w (o_filters o))) 0
-      | _, _ => 0
-      end
-  | _ => 0
+Definition options_mask (o : options) (cfg : option json) : Z :=
+  fold_left Z.lor (List.map (fun s => section_mask s cfg) (sections_consulted o)) 0.
+
+(* the environment of a run as the case files give it: what json.loads made of each --config string (None: it raised)
+   and what reading each --config_file path gave *)
+Fixpoint env_get {A} (k : text) (l : list (text * A)) : option A :=
+  match l with [] => None | (k', v) :: r => if text_eqb k k' then Some v else env_get k r end.
+Definition env_inline (jenv : list (text * option json)) (c : option text) : inline_src :=
+  match c with
+  | None => IAbsent
+  | Some t => match env_get t jenv with Some (Some j) => IGiven j | _ => IMalformed end
   end.
-(* strict = true: no recorded finding is excused *)
-Definition spec_case (strict : bool) (a : argv) (i : inline_src) (f : file_src) (obs : outcome) (rc : Z) (out_exists : bool) (cmp : Z) : bool :=
-  match a with
-  | NoSubcommand => match obs with OHelp => (rc =? 0) && negb out_exists | _ => false end
-  | Subcommand n o =>
-      if negb (text_eqb n (T "convert"))
-      then match obs with OError _ => negb (rc =? 0) && negb out_exists | _ => false end     (* unknown sub-command *)
+Definition env_file (fenv : list (text * file_src)) (c : option text) : file_src :=
+  match c with None => FAbsent | Some p => match env_get p fenv with Some f => f | None => FUnreadable end end.
+
+(* consistency of what was seen, whatever the command line: help = status 0, nothing logged, nothing written;
+   error = non-zero status, no output file, no output event; done = status 0 ... judged below *)
+Definition quiet_end (ev : list event) (fin : final unit) (rc : Z) (out_exists : bool) : bool :=
+  match fin with
+  | FHelp => (rc =? 0) && negb out_exists && match ev with [] => true | _ => false end
+  | FError _ => negb (rc =? 0) && negb out_exists && no_output_event ev && negb (shape_from 0 ev <? 0)
+  | FDone _ _ => false
+  end.
+(* strict = true: no recorded finding is excused.
+   ev, fin: the log and the end of the run observed with the readers, filters and writers replaced by recorders;
+   rc, out_exists: exit status of the real process and whether the output file exists afterwards;
+   cmp: 1 = the library pipeline run on the observed plan gave exactly the bytes of the output file;
+        0 = the library pipeline itself raised (then so must the command, leaving no file); 2 = bytes differ / file missing *)
+Definition spec_case (strict : bool) (toks : list text) (jenv : list (text * option json)) (fenv : list (text * file_src))
+                     (ev : list event) (fin : final unit) (rc : Z) (out_exists : bool) (cmp : Z) : bool :=
+  match toks with
+  | [] => match fin with FHelp => quiet_end ev fin rc out_exists | _ => false end
+  | sub :: rest =>
+      if negb (text_eqb sub (T "convert"))
+      then match fin with FError _ => quiet_end ev fin rc out_exists | _ => false end           (* unknown sub-command *)
       else
-        let cfg := effective i f in
-        let rt := find_type (o_itype o) (o_input o) in
-        let wt := find_type (o_otype o) (o_output o) in
-        match obs with
-        | OHelp => false
-        | OError _ =>
-            (* an error ends with a non-zero status and no output file, and must have a reason *)
-            negb (rc =? 0) && negb out_exists &&
-            (negb (sources_ok i f) ||
-             match rt, wt with
-             | Some r, Some w =>
-                 negb (writable w) ||
-                 match cfg with Some (JObj _) | None | Some JNull => false | Some _ => true end ||
-                 existsb (fun s => negb (section_status s cfg =? 0) || section_has_null s cfg || (negb strict && section_has_rejected s cfg))
-                         (sections_in_use r w (o_filters o))
-             | _, _ => true
-             end)
-        | OPlan p =>
-            (* cmp: 1 = the library pipeline run on the plan gave exactly the bytes of the output file;
-                    0 = the library pipeline itself raised (then so must the command); 2 = bytes differ / file missing *)
-            (if cmp =? 1 then (rc =? 0) && out_exists else if cmp =? 0 then negb (rc =? 0) else false) &&
-            sources_ok i f &&
-            type_ok (o_itype o) (o_input o) (reader_type (p_reader p)) &&
-            type_ok (o_otype o) (o_output o) (writer_type (p_writer p)) && writable (writer_type (p_writer p)) &&
-            (* filters: the known names of the command line, in order *)
-            (Z.of_nat (length (p_filters p)) =? Z.of_nat (length (List.filter spec_known_filter (o_filters o)))) &&
-            (* every value of a section in use is documented, or covered by a recorded finding *)
-            forallb (fun s => if strict then section_status s cfg =? 0 else negb (section_status s cfg =? 2))
-                    (sections_in_use (reader_type (p_reader p)) (writer_type (p_writer p)) (o_filters o)) &&
-            honours cfg p
+        match spec_items rest with
+        | None =>
+            (* outside the grammar (-h, unknown or incomplete options, stray words): help or an error, nothing written *)
+            match fin with FDone _ _ => false | _ => quiet_end ev fin rc out_exists end
+        | Some items =>
+            match spec_options items with
+            | None => match fin with FError _ => quiet_end ev fin rc out_exists | _ => false end    (* -i or -o missing *)
+            | Some (o, c, cf) =>
+                let i := env_inline jenv c in let f := env_file fenv cf in
+                let cfg := effective i f in
+                let rt := find_type (o_itype o) (o_input o) in
+                let wt := find_type (o_otype o) (o_output o) in
+                match fin with
+                | FHelp => false
+                | FError _ =>
+                    (* an error ends with a non-zero status and no output file, and must have a reason *)
+                    quiet_end ev fin rc out_exists &&
+                    (negb (sources_ok i f) ||
+                     match cfg with Some (JObj _) | None | Some JNull => false | Some _ => true end ||
+                     negb (section_status "general" cfg =? 0) || section_has_null "general" cfg ||
+                     match rt, wt with
+                     | Some r, Some w =>
+                         negb (writable w) ||
+                         existsb (fun s => negb (section_status s cfg =? 0) || section_has_null s cfg || (negb strict && section_has_rejected s cfg))
+                                 (sections_in_use r w (o_filters o))
+                     | _, _ => true
+                     end)
+                | FDone path _ =>
+                    (if cmp =? 1 then (rc =? 0) && out_exists else if cmp =? 0 then negb (rc =? 0) && negb out_exists else false) &&
+                    text_eqb path (o_output o) && (shape_from 0 ev =? 7) &&
+                    sources_ok i f &&
+                    match plan_of_events ev with
+                    | None => false
+                    | Some p =>
+                        type_ok (o_itype o) (o_input o) (reader_type (p_reader p)) &&
+                        type_ok (o_otype o) (o_output o) (writer_type (p_writer p)) && writable (writer_type (p_writer p)) &&
+                        (* filters: the known names of the command line, in order *)
+                        (Z.of_nat (length (p_filters p)) =? Z.of_nat (length (List.filter spec_known_filter (o_filters o)))) &&
+                        (* every value of a section in use is documented, or covered by a recorded finding *)
+                        forallb (fun s => if strict then section_status s cfg =? 0 else negb (section_status s cfg =? 2))
+                                (sections_in_use (reader_type (p_reader p)) (writer_type (p_writer p)) (o_filters o)) &&
+                        honours cfg p
+                    end
+                end
+            end
         end
   end.
